@@ -128,6 +128,68 @@ def rw_function(rng, prog, style=None):
     return p, "function:" + style
 
 
+def rw_function_compound(rng, prog):
+    """f = p0 p1.. -> E[S := p0]; call f (S) c1..: the first argument is itself a compound expression S taken
+    out of E, so inlining has to keep S's grouping inside the body's operators (and a parameter may be used twice)."""
+    sites = collect_scalar_sites(prog)
+    if not sites:
+        return None
+    ti, fld, ii = rng.choice(sites)
+    p = copy.deepcopy(prog)
+    t = p["main"][ti]
+    e = t[fld] if ii is None else t[fld][ii][1]
+    subs = []
+
+    def walk(x, path):
+        if isinstance(x, list) and x and x[0] == "bin":
+            if path:
+                subs.append(path)
+            walk(x[2], path + [2])
+            walk(x[3], path + [3])
+        elif isinstance(x, list) and x and x[0] in ("neg", "not"):
+            walk(x[1], path + [1])
+    walk(e, [])
+    if not subs:
+        return None
+    path = rng.choice(subs)
+    S = e
+    for k in path:
+        S = S[k]
+    S = copy.deepcopy(S)
+
+    def put(x, path, v):
+        if not path:
+            return v
+        y = list(x)
+        y[path[0]] = put(x[path[0]], path[1:], v)
+        return y
+    body0 = put(e, path, ["param", "p0"])
+    if rng.random() < 0.3:
+        # use the parameter twice: p0 op-neutral combination that keeps the value (x ?? x)
+        body0 = put(e, path, ["bin", "??", ["param", "p0"], ["param", "p0"]])
+    cols = []
+
+    def grab(c):
+        key = (c[1], c[2])
+        if key not in [(x[1], x[2]) for x in cols]:
+            cols.append(c)
+        return c
+    map_cols(body0, grab)
+    if len(cols) > 3:
+        return None
+    params = ["p0"] + ["q%d" % i for i in range(len(cols))]
+    body = map_cols(body0, lambda c: ["param", params[1 + [(x[1], x[2]) for x in cols].index((c[1], c[2]))]])
+    fname = "fc%d" % (len(prog.get("funcs", [])) + 1)
+    f = {"name": fname, "params": params, "named": [], "body": body}
+    call = ["call", fname, [S] + [list(c) for c in cols], {}, False]
+    p["funcs"] = p.get("funcs", []) + [f]
+    if ii is None:
+        t[fld] = call
+    else:
+        t[fld][ii][1] = call
+    return p, "function:compound_arg"
+
+
 def rw_split_filter(rng, prog):
     idx = [i for i, t in enumerate(prog["main"]) if t["t"] == "filter" and t["cond"][0] == "bin" and t["cond"][1] == "&&"
            and not model.has_kind(t["cond"], ("agg", "win"))]
@@ -277,7 +339,7 @@ def inherited(w, p2, db, dialect, o2, under):
     return "inherits:none:" + relcheck.shape_of(rp)[:120]
 
 
-REWRITES = [rw_let_prefix, rw_function, rw_function, rw_split_filter, rw_merge_filters, rw_identity, rw_identity, rw_module]
+REWRITES = [rw_let_prefix, rw_function, rw_function, rw_function_compound, rw_split_filter, rw_merge_filters, rw_identity, rw_identity, rw_module]
 
 
 def _shard(seed, shard, n_bases):
